@@ -7,6 +7,7 @@ import NdnVerif.C14.LemmasOrder
 import NdnVerif.C14.LemmasEnc
 import NdnVerif.C14.LemmasUri3
 import NdnVerif.C14.Table
+import NdnVerif.C14.Pattern
 namespace Ndn.C14
 
 /-! ## 1. `Name.Compare` is a total order and coincides with NDN canonical order -/
@@ -237,5 +238,21 @@ theorem table_with_removal_agrees_with_equality (ops : List TOp)
 example : tabrRun compKey [] [.ins [⟨8, [97]⟩, ⟨8, [99]⟩], .ins [⟨8, [97]⟩, ⟨8, [98]⟩, ⟨8, [99]⟩],
     .rem [⟨8, [97]⟩, ⟨8, [98]⟩, ⟨8, [99]⟩], .has [⟨8, [97]⟩, ⟨8, [99]⟩], .has [⟨8, [97]⟩, ⟨8, [98]⟩, ⟨8, [99]⟩]]
     = ['n', 'n', 'r', '1', '0'] := by decide
+
+/-! ## 7. name patterns: the pattern parser never panics either -/
+
+/-- `NamePatternFromStr` (the schema tree's paths come from configuration text through it) never panics, on any
+    byte string -/
+theorem namePatternFromStr_never_panics (s : Bytes) : namePatFromStr s ≠ .panic := namePatFromStr_no_panic s
+
+theorem componentPatternFromStr_never_panics (s : Bytes) : compPatFromStr s ≠ .panic := compPatFromStr_no_panic s
+
+/-- finding F-14c on the pinned tree: `strs[len(strs)-1]` was indexed unconditionally, and for the empty string
+    `strings.Split` gives `[""]`, whose only element the leading-slash rule removes -/
+theorem namePatternFromStr_pinned_panics_on_empty : namePatFromStrPinned [] = .panic := by decide
+
+example : namePatFromStr [] = .ok [] := by decide
+example : namePatFromStr (asciiBytes "/a/<v=ver>/<x>") =
+    .ok [.comp ⟨8, [97]⟩, .pat 0x36 (asciiBytes "ver"), .pat 8 [120]] := by decide
 
 end Ndn.C14
